@@ -26,6 +26,11 @@ def run_case(case, rec, cid):
     rec.begin(cid)
     p = mk_tp(case["p"])
     _one(case, rec, cid, p)
+    if case.get("seq"):
+        # a sequence on the same object: format it, derive other points from it by the public copy-and-change methods, format those
+        from harness.common import Duration as _D
+        for q in (p.add_months(1), p.add_months(-13), p + _D(days=1), p.to_utc(), p.to_week_date()):
+            _one(dict(case, strp=False), rec, cid, q)
     if case.get("also"):
         # the same instant written in another offset / representation, formatted with the same format in the same process:
         # each text must be that of ITS civil date-time
@@ -62,7 +67,9 @@ def _one(case, rec, cid, p):
     if any(t["d"] == "bad" for t in toks) or not case.get("strp"):
         return True
     az = case["az"]
-    parser = _P.setdefault(tuple(az), TimePointParser(assumed_time_zone=tuple(az)))
+    # (some of the parsers are ALSO told to default to an unknown zone: that option only applies when no zone is assumed)
+    both = bool(case.get("both"))
+    parser = _P.setdefault((tuple(az), both), TimePointParser(assumed_time_zone=tuple(az), default_to_unknown_time_zone=both))
 
     def f():
         q = with_zone({"tz": 0, "alt": 0, "daylight": 0, "isdst": 0}, lambda: parser.strptime(v, fmt))
@@ -143,9 +150,12 @@ def expand(job):
             yield {"mode": sp, "p": p, "toks": toks, "az": [0, 0], "strp": False}
             continue
         toks, _ = rand_format(rnd)
-        case = {"mode": sp, "p": p, "toks": toks, "az": rnd.choice([[0, 0], [5, 30], [-3, -30], [0, -30], [0, 45], [-9, -30], [13, 0], [-11, 0]]), "strp": True}
+        case = {"mode": sp, "p": p, "toks": toks, "az": rnd.choice([[0, 0], [5, 30], [-3, -30], [0, -30], [0, 45], [-9, -30], [13, 0], [-11, 0]]), "strp": True,
+                "both": rnd.random() < 0.4}
         if rnd.random() < 0.2:
             case["via"] = "dumper"
+        if rnd.random() < 0.1 and 30 <= p["y"] <= 9900:
+            case["seq"] = True
         if rnd.random() < 0.25:
             case["also"] = rnd.choice([[5, 30], [-3, -30], [13, 45], [-11, 0], [0, 0], [1, 0]])
         yield case
